@@ -383,6 +383,9 @@ def mol_to_sdf(mol, out_file, conf_num=None):
     touch_dir(os.path.dirname(out_file))
     with smart_open.open(out_file, "w") as fobj:
         writer = rdkit.Chem.SDWriter(fobj)
+        old_energy = None
+        if mol.HasProp(CONF_ENERGY_PROPNAME):
+            old_energy = mol.GetProp(CONF_ENERGY_PROPNAME)
         conf_ids = [conf.GetId() for conf in mol.GetConformers()]
         conf_energies = get_conformer_energies_from_mol(mol)
         mol.ClearProp(CONF_ENERGIES_PROPNAME)
@@ -397,6 +400,8 @@ def mol_to_sdf(mol, out_file, conf_num=None):
             writer.write(mol, confId=i)
         writer.close()
         mol.ClearProp(CONF_ENERGY_PROPNAME)
+        if old_energy is not None:
+            mol.SetProp(CONF_ENERGY_PROPNAME, old_energy)
         if conf_energies is not None:
             add_conformer_energies_to_mol(mol, conf_energies)
     logging.debug("Saved {:d} conformers to {}.".format(i + 1, out_file))
